@@ -185,6 +185,20 @@ class Book:
         self.M[m] = {"stamp": self.tick(), "refs": set(refs), "name": name, "descs": t, "ed": ed, "maybe": bad}
         return True
 
+    def template_extend(self):
+        """`bufr_template_add_DescValue` on a template that is already finalized, then finalized again"""
+        rng = self.rng
+        c = [m for m, o in self.M.items() if not o.get("maybe") and o.get("descs") and o.get("name") in self.P and not o.get("fromfile")]
+        if not c:
+            return False
+        m = rng.choice(c); o = self.M[m]
+        B, D = self.P[o["name"]]
+        add = templates.gen_template(rng, B, D, depth=rng.choice([0, 0, 1]), ops=False, n=rng.choice([1, 2]))
+        self.emit("own.madd %d %s" % (m, " ".join("%06d" % d for d in add)))
+        o["descs"] = list(o["descs"]) + add
+        o["stamp_ext"] = self.tick()
+        return True
+
     def template_copy(self):
         rng = self.rng
         src = [m for m, o in self.M.items() if not o.get("maybe")]
@@ -460,7 +474,7 @@ def finish(bk):
 def random_workload(rng, P, nops=None):
     bk = Book(rng, P)
     nops = nops or rng.choice([6, 10, 16, 24])
-    acts = [(bk.tables_recipe, 3), (bk.tables_extra, 1), (bk.template_new, 4), (bk.template_copy, 1), (bk.template_load, 1),
+    acts = [(bk.tables_recipe, 3), (bk.tables_extra, 1), (bk.template_new, 4), (bk.template_copy, 1), (bk.template_extend, 2), (bk.template_load, 1),
             (bk.dataset_new, 4), (bk.subset_new, 6), (bk.subset_touch, 2), (bk.dataset_merge, 3), (bk.dataset_mismatch_merge, 1),
             (bk.encode, 4), (bk.write_read, 3), (bk.decode, 4), (bk.dumpload, 1), (bk.free_one, 5),
             (bk.tables_list, 1), (bk.store_extract, 1), (bk.extract_nothing, 1)]
@@ -529,14 +543,23 @@ def growth_workload(rng, P):
     nums = [d for d, (sc, ref, nb, typ) in sorted(B.items()) if typ == regs.NUMERIC and 16 <= nb <= 32 and regs.X(d) in (62, 63)]
     t = [rng.choice(wide) for _ in range(rng.choice([1, 2, 4]))] + [rng.choice(nums) for _ in range(rng.choice([0, 2, 6]))]
     rng.shuffle(t)
+    mode = 2
+    if rng.random() < 0.5:
+        # fields of 57 to 64 bits that differ between subsets, behind a few narrow ones that move the bit offset:
+        # the widest single store `bufr_putbits` makes, beginning anywhere up to the last octet of the data capacity
+        w64 = [d for d, (sc, ref, nb, typ) in sorted(B.items()) if typ in (regs.NUMERIC, regs.CODE, regs.FLAG) and nb >= 57]
+        narrow = [d for d, (sc, ref, nb, typ) in sorted(B.items()) if typ == regs.NUMERIC and nb <= 12 and regs.X(d) == 63]
+        t = [rng.choice(narrow) for _ in range(rng.choice([0, 1, 2, 3]))] + [rng.choice(w64) for _ in range(rng.choice([1, 1, 2, 3, 5]))]
+        rng.shuffle(t)
+        mode = 0
     m = 0
     bk.emit("own.mnew %d @syn 4 %s" % (m, " ".join("%06d" % d for d in t)))
     bk.M[m] = {"stamp": bk.tick(), "refs": set(), "name": "syn", "descs": t, "ed": 4, "maybe": False}
     bk.dataset_new()
     d = next(iter(bk.D))
-    n = rng.choice([1, 1, 2, 3, 8, 20])
+    n = rng.choice([1, 1, 2, 3, 8, 20]) if mode == 2 else rng.choice([2, 2, 3, 4, 5, 6, 7, 9, 12, 17])
     for _ in range(n):
-        bk.subset_new(d=d, fs="1", mode=2)
+        bk.subset_new(d=d, fs="1", mode=mode)
     bk.check(force=True)
     bk.encode(d=d, comp=1)
     bk.check(force=True)
